@@ -333,6 +333,52 @@ mod refzinc {
     }
 }
 
+
+// ---- an independent reader for Hayson, written from the Hayson specification over serde_json's own document tree (not from
+//      libhaystack's decoder): member order is irrelevant, names and `_kind` tags are exact
+mod refhayson {
+    use libhaystack::val::{Column, DateTime, Dict, Grid, Value};
+    use serde_json::Value as J;
+    fn s<'a>(o: &'a serde_json::Map<String, J>, k: &str) -> Result<&'a str, String> { o.get(k).and_then(|v| v.as_str()).ok_or(format!("member {k:?} missing or not a string")) }
+    fn only(o: &serde_json::Map<String, J>, allowed: &[&str]) -> Result<(), String> {
+        for k in o.keys() { if !allowed.contains(&k.as_str()) { return Err(format!("unexpected member {k:?}")); } } Ok(()) }
+    fn dict(o: &serde_json::Map<String, J>, skip: &[&str]) -> Result<Dict, String> {
+        let mut d = Dict::new(); for (k, v) in o { if !skip.contains(&k.as_str()) { d.insert(k.clone(), decode(v)?); } } Ok(d) }
+    pub fn decode(j: &J) -> Result<Value, String> {
+        match j {
+            J::Null => Ok(Value::Null), J::Bool(b) => Ok(Value::make_bool(*b)), J::String(t) => Ok(Value::make_str(t)),
+            J::Number(n) => n.as_f64().map(Value::make_number).ok_or("number".into()),
+            J::Array(a) => Ok(Value::make_list(a.iter().map(decode).collect::<Result<Vec<_>, _>>()?)),
+            J::Object(o) => match o.get("_kind").and_then(|k| k.as_str()) {
+                None => Ok(Value::make_dict(dict(o, &[])?)),
+                Some("dict") => Ok(Value::make_dict(dict(o, &["_kind"])?)),
+                Some("marker") => { only(o, &["_kind"])?; Ok(Value::Marker) } Some("remove") => { only(o, &["_kind"])?; Ok(Value::Remove) } Some("na") => { only(o, &["_kind"])?; Ok(Value::Na) }
+                Some("number") => { only(o, &["_kind", "val", "unit"])?;
+                    let x = match o.get("val") { Some(J::Number(n)) => n.as_f64().ok_or("val")?, Some(J::String(t)) => match t.as_str() { "INF" => f64::INFINITY, "-INF" => f64::NEG_INFINITY, "NaN" => f64::NAN, _ => return Err("val".into()) }, _ => return Err("number without val".into()) };
+                    match o.get("unit") { None => Ok(Value::make_number(x)), Some(J::String(u)) => libhaystack::units::get_unit(u).map(|u| Value::make_number_unit(x, u)).ok_or(format!("unknown unit {u}")), _ => Err("unit".into()) } }
+                Some("ref") => { only(o, &["_kind", "val", "dis"])?; match o.get("dis") { None => Ok(Value::make_ref(s(o, "val")?)), Some(J::String(d)) => Ok(Value::make_ref_with_dis(s(o, "val")?, d)), _ => Err("dis".into()) } }
+                Some("symbol") => { only(o, &["_kind", "val"])?; Ok(Value::make_symbol(s(o, "val")?)) }
+                Some("uri") => { only(o, &["_kind", "val"])?; Ok(Value::make_uri(s(o, "val")?)) }
+                Some("xstr") => { only(o, &["_kind", "type", "val"])?; Ok(Value::make_xstr_from(s(o, "type")?, s(o, "val")?)) }
+                Some("coord") => { only(o, &["_kind", "lat", "lng"])?; let f = |k: &str| o.get(k).and_then(|v| v.as_f64()).ok_or(format!("coord member {k}")); Ok(Value::make_coord_from(f("lat")?, f("lng")?)) }
+                Some("date") => { only(o, &["_kind", "val"])?; s(o, "val")?.parse::<libhaystack::val::Date>().map(Value::make_date).map_err(|e| format!("{e:?}")) }
+                Some("time") => { only(o, &["_kind", "val"])?; s(o, "val")?.parse::<libhaystack::val::Time>().map(Value::make_time).map_err(|e| format!("{e:?}")) }
+                Some("dateTime") => { only(o, &["_kind", "val", "tz"])?; match o.get("tz") { None => DateTime::parse_from_rfc3339(s(o, "val")?).map(Value::make_datetime),
+                    Some(J::String(tz)) if tz == "UTC" => DateTime::parse_from_rfc3339(s(o, "val")?).map(Value::make_datetime),
+                    Some(J::String(tz)) => DateTime::parse_from_rfc3339_with_timezone(s(o, "val")?, tz).map(Value::make_datetime), _ => Err("tz".into()) } }
+                Some("grid") => { only(o, &["_kind", "meta", "cols", "rows"])?;
+                    let mut ver = "3.0".to_string();
+                    let meta = match o.get("meta") { None => None, Some(J::Object(m)) => { if let Some(J::String(v)) = m.get("ver") { ver = v.clone(); } Some(dict(m, &["ver"])?) } _ => return Err("meta".into()) };
+                    let cols = match o.get("cols") { Some(J::Array(a)) => a.iter().map(|c| match c { J::Object(c) => { only(c, &["name", "meta"])?;
+                        Ok(Column { name: s(c, "name")?.to_string(), meta: match c.get("meta") { None => None, Some(J::Object(m)) => Some(dict(m, &[])?), _ => return Err("col meta".to_string()) } }) } _ => Err("col".to_string()) }).collect::<Result<Vec<_>, _>>()?, _ => return Err("cols".into()) };
+                    let rows = match o.get("rows") { Some(J::Array(a)) => a.iter().map(|r| match r { J::Object(r) => dict(r, &[]), _ => Err("row".to_string()) }).collect::<Result<Vec<_>, _>>()?, _ => return Err("rows".into()) };
+                    Ok(Value::make_grid(Grid { meta, columns: cols, rows, ver })) }
+                Some(other) => Err(format!("unknown _kind {other:?}")),
+            },
+        }
+    }
+}
+
 fn main() {
     let args: Vec<String> = std::env::args().collect();
     let fam = args.get(1).map(|s| s.as_str()).unwrap_or("");
@@ -1117,6 +1163,27 @@ fn main() {
                 }
             }
             println!("RESULT enum:zinc-reference {n} values: the text written is a sentence of the grammar that denotes the value");
+        }
+        // ---- C05 enumerator: the JSON the Hayson writer emits is read by an independent reader written from the Hayson specification
+        "enum:hayson-reference" => {
+            let mut vals = composite_samples(); vals.pop();
+            let kg = libhaystack::units::get_unit_or_default("kg");
+            for x in [0.0f64, -0.0, 1.0, -1.5, 1e-7, 5e-324, 1e21, 9007199254740993.0, 1.7976931348623157e308, f64::NAN, f64::INFINITY, f64::NEG_INFINITY] {
+                vals.push(Value::make_number(x)); if x.is_finite() { vals.push(Value::make_number_unit(x, kg)); vals.push(Value::make_coord_from(x.clamp(-90.0, 90.0), -x.clamp(-90.0, 90.0))); } }
+            for a in ["", "a", "\u{e9}\u{1F600}", "a\"b\\"] { vals.push(Value::make_str(a)); vals.push(Value::make_ref_with_dis("r", a)); vals.push(Value::make_xstr_from("Bin", a)); vals.push(Value::make_uri(a)); }
+            for v in [Value::Marker, Value::Remove, Value::Na, Value::Null, Value::make_true(), Value::make_ref("a"), Value::make_symbol("s")] { vals.push(v); }
+            let mut n = 0;
+            for v in &vals {
+                let text = match serde_json::to_string(v) { Ok(t) => t, Err(e) => { println!("RESULT enum:hayson-reference value={v:?} cannot be encoded: {e}"); std::process::exit(3); } };
+                let back = serde_json::from_str::<serde_json::Value>(&text).map_err(|e| e.to_string()).and_then(|j| refhayson::decode(&j));
+                n += 1;
+                let same = matches!(&back, Ok(b) if format!("{:?}", norm(b)) == format!("{:?}", norm(v)));
+                if !same {
+                    println!("RESULT enum:hayson-reference value={v:?} is written as {text}, which the reference reader (written from the Hayson specification) reads as {back:?}");
+                    std::process::exit(3);
+                }
+            }
+            println!("RESULT enum:hayson-reference {n} values: the JSON written is the Hayson representation of the value");
         }
         // ---- C09 enumerator (evaluation half): `id *== @ref` over resolvers whose refs form chains and cycles of several shapes must
         //      terminate with the right answer; a run that does not come back is reported as a hang by the caller's watchdog
